@@ -313,7 +313,7 @@ class Paragraph(BlockToken):
     Paragraph token. (["some\\n", "continuous\\n", "lines\\n"])
     This is a leaf block token. Its children are inline (span) tokens.
     """
-    setext_pattern = re.compile(r' {0,3}(=+|-+) *$')
+    setext_pattern = re.compile(r' {0,3}(=+|-+)[ \t]*$')
     parse_setext = True  # can be disabled by Quote
 
     def __new__(cls, lines):
@@ -427,7 +427,7 @@ class CodeFence(BlockToken):
         language (str): language of code block (default to empty).
     """
     repr_attributes = BlockToken.repr_attributes + ("language",)
-    pattern = re.compile(r'( {0,3})(`{3,}|~{3,})( *(\S*)[^\n]*)')
+    pattern = re.compile(r'( {0,3})(`{3,}|~{3,})([ \t]*(\S*)[^\n]*)')
     _open_info = None
 
     def __init__(self, match):
